@@ -38,3 +38,40 @@ fn d4_flooding_decoder_limit_zero_is_stateless() {
     let again = used.decode(&llrs_b, 0);
     assert_eq!(fresh, again, "decode(_, 0) depends on the previous frame");
 }
+
+#[test]
+fn d5_ber_run_returns_error_instead_of_hanging_when_block_size_does_not_fit() {
+    use ldpc_toolbox::decoder::factory::DecoderImplementation;
+    use ldpc_toolbox::simulation::factory::{BerTestBuilder, Modulation};
+    use std::sync::mpsc;
+    use std::time::Duration;
+    let mut h = SparseMatrix::new(3, 6);
+    h.insert_row(0, [0, 1, 3].iter());
+    h.insert_row(1, [1, 2, 4].iter());
+    h.insert_row(2, [0, 2, 5].iter());
+    let (tx, rx) = mpsc::channel();
+    std::thread::spawn(move || {
+        let test = BerTestBuilder {
+            h,
+            decoder_implementation: DecoderImplementation::Phif64,
+            modulation: Modulation::Bpsk,
+            puncturing_pattern: None,
+            interleaving_columns: Some(4), // 6 is not divisible by 4
+            max_frame_errors: 1,
+            max_iterations: 5,
+            ebn0s_db: &[0.0],
+            reporter: None,
+            bch_max_errors: 0,
+        }
+        .build()
+        .unwrap();
+        let r = std::panic::catch_unwind(std::panic::AssertUnwindSafe(|| test.run().is_err()));
+        let _ = tx.send(r);
+    });
+    match rx.recv_timeout(Duration::from_secs(15)) {
+        Ok(Ok(true)) => (),
+        Ok(Ok(false)) => panic!("run() reported success"),
+        Ok(Err(_)) => panic!("run() panicked instead of returning an error"),
+        Err(_) => panic!("run() hangs: all workers died but the collector still blocks in recv()"),
+    }
+}
